@@ -175,6 +175,22 @@ def enc_chain(chain):
     return ",".join(out)
 
 
+def own_texts(cenc):
+    """The texts a CONST / ENUM member of the chain stands for: str(constant) / the allowed values.  A derived text outside
+    this set was put into the grammar by the compiler, not by the schema: no CONST / ENUM finding can excuse it."""
+    out = set()
+    for m in cenc.split(","):
+        if m.startswith("E:"):
+            out |= {dec_str(x) for x in m[2:].split("/")} if m[2:] != "~" else set()
+        elif m[:3] in ("CS:", "CI:", "CF:"):
+            out.add(dec_str(m[3:]))
+        elif m.startswith("CB:"):
+            out.add("True" if m[3:] == "1" else "False")
+        elif m == "CZ":
+            out.add("None")
+    return out
+
+
 def cls_tok(w):
     chars = sorted({c for c in w if ord(c) >= 128})
     return ",".join(f"{ord(c)}:{lexcorr.cls_flags(c)}" for c in chars) or "-"
@@ -452,7 +468,10 @@ def run(ctx):
             continue
         fid = None
         if p is not None and p[0] == "0":
-            if kind in ("DATE", "ISO8601", "CONST", "ENUM"):
+            if kind in ("DATE", "ISO8601"):
+                fid = FINDING[kind]
+            elif kind in ("CONST", "ENUM") and w in own_texts(cenc):
+                # the grammar shows the constant's / member's own text and the READER types it differently
                 fid = FINDING[kind]
             elif kind == "NUMBER" and p[1] == "ERR":
                 fid = FINDING["NUMBER"]
